@@ -2090,6 +2090,8 @@ def preprocess_file(
         def_args = def_args.split(",")
         regex = re.compile(rf"\b{def_name}\s*\({','.join(['(.*)']*len(def_args))}\)")
 
+        # Backslashes in the macro body are literal text, not regex escapes
+        sub = sub.replace("\\", "\\\\")
         for i, arg in enumerate(def_args, start=1):
             sub = re.sub(rf"\b({arg.strip()})\b", rf"\\{i}", sub)
 
@@ -2307,8 +2309,10 @@ def preprocess_file(
 
             if isinstance(def_regex, tuple):
                 def_regex, value = def_regex
-
-            line_new, nsubs = def_regex.subn(value, line)
+                line_new, nsubs = def_regex.subn(value, line)
+            else:
+                # Object-like macro: insert the body verbatim
+                line_new, nsubs = def_regex.subn(lambda _, v=value: v, line)
             if nsubs > 0:
                 log.debug(
                     "%s !!! Macro sub(%d) '%s' -> '%s'",
